@@ -1,6 +1,11 @@
 package c02
 
-import "testing"
+import (
+	"bytes"
+	"os"
+	"path/filepath"
+	"testing"
+)
 
 // TestC02Regress replays the minimal inputs of repaired findings (plain Go,
 // no generator): each must be handled without panic.
@@ -19,5 +24,35 @@ func TestC02Regress(t *testing.T) {
 		if err := tg.verdict(c.data, tg.run(c.data)); err != nil {
 			t.Errorf("%v", err)
 		}
+	}
+}
+
+// TestC02RegressFiles replays the saved inputs of repaired findings kept
+// under corpus/c02/regress (file: target name, newline, bytes), e.g. the
+// subroutine-expansion and Private-DICT-size inputs found by the thorough
+// tier.
+func TestC02RegressFiles(t *testing.T) {
+	dir := os.Getenv("VERIF_CORPUS")
+	if dir == "" {
+		t.Skip("VERIF_CORPUS not set")
+	}
+	files, _ := filepath.Glob(filepath.Join(dir, "c02", "regress", "*.bin"))
+	for _, fn := range files {
+		data, err := os.ReadFile(fn)
+		if err != nil {
+			t.Fatal(err)
+		}
+		i := bytes.IndexByte(data, '\n')
+		if i < 0 {
+			t.Fatalf("%s: malformed", fn)
+		}
+		tg := targetByName(string(data[:i]))
+		b := data[i+1:]
+		if err := tg.verdict(b, tg.run(b)); err != nil {
+			t.Errorf("%s: %v", filepath.Base(fn), err)
+		}
+	}
+	if len(files) == 0 {
+		t.Skip("no saved inputs")
 	}
 }
